@@ -5,7 +5,7 @@ DESIGN_REF = "DESIGN.md §4 C16"
 TECHNIQUE = "machine-checked proof in Coq + model/code correspondence check"
 LEVEL_TEXT = 'proof (one clause partial): events_match_history composes, for every history on both back-end models, per-operation events = abstract history, stored sequence = deliveries in order, one deleted event per departed message, silence of failing/reading operations, and deleted-after-stored under the oversize guard; its parts: stored_once and deleted_once (per message: #deleted + #live = #stored, #stored = 1 iff delivered) for every history x limits on both back-end models, every departure path (remove, purge, cap, size limit; retention removes through RemoveMessage); stored_before_deleted_partial under the guard that excludes the open oversize finding (stored_before_deleted_refuted is its witness); listener_serial and delivery_is_emit_order for the per-listener FIFO broker under every schedule; two-broker model: stored_before_deleted_delivery_refuted (open finding K-C16-cross-broker-order) and stored_before_deleted_delivery_partial (a consumer whose stored-queue is empty when deleted(x) is emitted has already seen stored(x)). The theorems about the stores are about SEQUENTIAL histories; interleavings of concurrent operations with each other and the size enforcer are covered by the forced-schedule stream (kind conc) with the event-count oracle, not by a theorem. Tie to /repo: about 530 histories per run through the real StoreManager.Deliver and extension.Host listeners, 12 broker schedules, about 160 forced store schedules.'
 LEVEL_NOTE = 'events are attributed to operations by flushing both brokers with a sentinel after every operation; order between the two brokers is observed at operation granularity only; events_match_history clause 2 (stored sequence = deliveries in order) and clause 5 (deleted after stored) equate EMIT order with arrival order for SEQUENTIAL histories only: under concurrent operations StoreManager.Deliver emits stored(x) only after AddMessage(x) has returned while a store emits deleted(x) from inside the removing operation, so deleted(x) can be emitted before stored(x) with no oversize message and two concurrent Delivers can emit stored events against id order (open finding K-C16-concurrent-stored-after-deleted, witness kind cdeliver on both stores); tied to the source by the translator (go/cmd/pins/c07.go -> coq/Gen/StorePins.v, regenerated on every run): the file store id format / counter / path scheme (file_id_format_pinned), the functions that remove messages and those that emit the after-events (removal_paths_emit: every removal path of either store announces what it removes; AfterMessageStored is emitted by StoreManager.Deliver only), the order of the steps of the delivery paths (add_steps_pinned); delivery_events_explained composes the event theorems with the cap / size-limit theorems (which deleted events a delivery emits, in which order, and exactly when)'
-RULE = "(1) random operation histories under caps {0,1,2,3} x size limits {0,1,4 KiB} on both stores, 70% through the real StoreManager.Deliver, events observed by listeners registered through extension.Host and attributed to operations by flushing both brokers; (2) kind sched: forced schedules of the async broker (a listener blocks until a later invocation begins); (3) kind conc: forced schedules of 2-3 concurrent memory-store operations (remove / purge / cap-evicting delivery vs. size-evicting delivery) parked at the mem.* verifhook points, every 'victim parked after j steps' prefix plus random schedules, oracle = per-message event counts after quiescence; (2b) kind slow: ONE listener held 6 s inside its first invocation while two more events are emitted behind it (no re-entry, order kept) — in the QUICK tier on purpose (+6 s of 16 s): a per-call time limit inside a broker is a hidden constant that no schedule explores for free, and listener_serial is the central clause; the thorough tier adds a 12 s / 5 event case; (4b) kind mdeliver: one message to 1-4 recipients through the real StoreManager.Deliver with AddMessage failing for a chosen recipient (file store: a plain file where the mailbox directory should be; memory store: a wrapper), every copy that entered a mailbox must have its stored event; (4c) kind churn: listeners removed/re-added during emits; (4) kind xbroker: the witness of K-C16-cross-broker-order on both stores. distinct = distinct input line; non-trivial = (histories) at least one add and one operation on a stored message, (conc) at least two concurrent operations and a non-empty schedule"
+RULE = "(1) random operation histories under caps {0,1,2,3} x size limits {0,1,4 KiB} on both stores, 70% through the real StoreManager.Deliver, events observed by listeners registered through extension.Host and attributed to operations by flushing both brokers; (2) kind sched: forced schedules of the async broker (a listener blocks until a later invocation begins); (3) kind conc: forced schedules of 2-3 concurrent memory-store operations (remove / purge / cap-evicting delivery vs. size-evicting delivery) parked at the mem.* verifhook points, every 'victim parked after j steps' prefix plus random schedules, oracle = per-message event counts after quiescence; (2b) kind slow: ONE listener held 6 s inside its first invocation while two more events are emitted behind it (no re-entry, order kept) — in the QUICK tier on purpose (+6 s of 16 s): a per-call time limit inside a broker is a hidden constant that no schedule explores for free, and listener_serial is the central clause; the thorough tier adds a 12 s / 5 event case; (4b) kind mdeliver: one message to 1-4 recipients through the real StoreManager.Deliver with AddMessage failing for a chosen recipient (file store: a plain file where the mailbox directory should be; memory store: a wrapper), every copy that entered a mailbox must have its stored event; (4d) kind sdeliver: one StoreManager.Deliver whose 2-3 recipients map to ONE mailbox (+tags, repeated address, case variants; same content and date) on both stores: k messages, k distinct ids, k stored events each with its own id, then one deleted event per id; (4c) kind churn: listeners removed/re-added during emits; (4) kind xbroker: the witness of K-C16-cross-broker-order on both stores. distinct = distinct input line; non-trivial = (histories) at least one add and one operation on a stored message, (conc) at least two concurrent operations and a non-empty schedule"
 TRUSTED = ["handles: messages are named by 'k-th add to this mailbox' / 'latest' / a bogus literal; the driver's id<->handle table (Go map) is modelled by StoreSpecImpl.run_impl", 'message content is abstracted to (date, tag, size, seen): the driver checks that from/to/subject/body/mailbox read back equal what the add with that handle wrote and prints the tag only then', 'VisitMailboxes enumeration order (map / readdir order) is not compared: groups are sorted by mailbox on both sides; empty groups are dropped', 'file store: byte-level disk protocol (tmp+rename, unlink order, gob) is not in this model (C10/C11); I/O errors are not modelled', 'memory store: the size enforcer goroutine is modelled as a synchronous sub-step (callers block on md.done); creation of an empty mailbox record by reads is not modelled (unobservable)', 'Go scheduler/locks: asyncListener.push/deliver are modelled as atomic steps (Events.v)']
 ASSUMPTIONS = []
 NOT_PROVED = ["stored_before_deleted_delivery_stmt (Proofs/EventsXBroker.v): across the two brokers every consumer sees stored(n) before deleted(n) — refuted (open finding K-C16-cross-broker-order); proved under the guard 'stored-queue empty at the emit of deleted(n)'", "event counts under concurrent interleavings of store operations with each other and with the size enforcer goroutine: no theorem (the store theorems quantify over sequential histories; C09's Conc.v is the interleaving model); checked by forced schedules through the mem.* verifhook points with the conservation-law oracle", 'emission order under CONCURRENT operations: deleted(x) before stored(x) without an oversize message (Deliver emits stored after AddMessage returned; cap/size eviction, delete or retention removal by another operation in between) and stored events against id order for two concurrent Delivers — no theorem (the store models are sequential), open finding K-C16-concurrent-stored-after-deleted, reproduced on the real code by kind cdeliver']
@@ -16,7 +16,7 @@ def nontrivial(kind, ins, outs):
         return len(ins) == 5 and "," in ins[3] and ins[4] not in ("-", "")
     if kind == "mdeliver":  # a delivery to several recipients with a failing one that is not the first
         return len(ins) == 4 and 0 < int(ins[2]) < int(ins[1])
-    if kind in ("sched", "sched2", "slow", "churn", "xbroker", "cdeliver"):
+    if kind in ("sched", "sched2", "slow", "churn", "xbroker", "cdeliver", "sdeliver"):
         return True
     ops = ins[4].split(",") if len(ins) > 4 else []
     return any(o.startswith("a") for o in ops) and any(o[0] in "gsr" for o in ops)
